@@ -197,7 +197,8 @@ static uint32_t mus2mid_getdstpos(struct mus_ctx *ctx) {
 /* writes a variable length integer to a buffer, and returns bytes written */
 static int32_t mus2mid_writevarlen(int32_t value, uint8_t *out)
 {
-    int32_t buffer, count = 0;
+    uint32_t buffer; /* unsigned: a 4-byte quantity sets bit 31 and must not be sign-extended below */
+    int32_t count = 0;
 
     buffer = value & 0x7f;
     while ((value >>= 7) > 0) {
